@@ -56,7 +56,17 @@ KEY_VALUES = {"bool": True, "str": "text", "id": 4711, "int": 10, "uri": "com.my
               "ff": FF, "anydict": {"x": 1}}
 
 
+_VAR = [0]
+INTKEY_DICTS = [{1: "x"}, {"a": 1, 5: 2}, {"k": "v", "z": 0, b"b": 1}]           # (a string key first: every key must be checked)
+BAD_URIS = ["com. x#y", "com.my\u00a0app.topic1", "com.my\x1capp", "com.x\u2028y.z", "com.\u3000.x", "com.myapp.t\u0085"]
+
+
 def concretise(c, key=""):
+    _VAR[0] += 1
+    if c == "dict_intkey":
+        return copy.deepcopy(INTKEY_DICTS[_VAR[0] % len(INTKEY_DICTS)])
+    if c == "str_baduri":
+        return BAD_URIS[_VAR[0] % len(BAD_URIS)]
     return {
         "int0": 0, "int1": 1, "int53": 2 ** 53, "int53p": 2 ** 53 + 1, "intneg": -1, "float": 1.5, "true": True, "false": False,
         "null": None, "str_uri": "com.myapp.topic1", "str_loose": "com.myApp.Topic-1", "str_emptycomp": "com..x",
@@ -83,10 +93,18 @@ def run_parse(raw):
         return type(e).__name__, None
 
 
+def _nonstr_keys(x):
+    if isinstance(x, (list, tuple)):
+        return any(_nonstr_keys(i) for i in x)
+    if isinstance(x, dict):
+        return any(not isinstance(k, str) or _nonstr_keys(v) for k, v in x.items())
+    return False
+
+
 def jsonable(x):
     try:
         json.dumps(x)
-        return not _has_bytes(x)
+        return not _has_bytes(x) and not _nonstr_keys(x)      # JSON cannot express bytes or non-string keys
     except Exception:  # noqa
         return False
 
